@@ -156,6 +156,9 @@ func gen(r *sim.Rng, tier string) *sim.Case {
 	if r.Pct(20) {
 		c.Params["twin"] = 1 // a second list of the same type is used alternately
 	}
+	if r.Pct(15) {
+		c.Params["early_seq"] = 1 // All() is called before anything else; the sequence is ranged at the end
+	}
 	start := r.Pick(4, 2, 3)
 	if kind >= 3 && start == 2 {
 		start = 1
@@ -329,6 +332,12 @@ func execTyped[K any](c *sim.Case, ad *adapter[K], out *sim.WorkerOut, dg *engc.
 	tmd := &model{m: map[int]int{}, ord: ad.ord}
 	if c.P("twin") == 1 {
 		twin = ad.clone()
+	}
+	var earlySeq iter.Seq2[K, int]
+	if c.P("early_seq") == 1 {
+		if pv := engc.Call(ad.name+".All", func() { earlySeq = ad.l.All() }); pv != nil {
+			return pv, true
+		}
 	}
 	site := func(op string) string { return ad.name + "." + op }
 	mism := func(op string, format string, a ...any) *sim.Violation {
@@ -504,6 +513,32 @@ func execTyped[K any](c *sim.Case, ad *adapter[K], out *sim.WorkerOut, dg *engc.
 			}
 		}
 		dg.Add(op.Op, len(md.m), lvl)
+	}
+	// the sequence value obtained before the first operation (possibly from a zero-value list)
+	// enumerates what the list holds when it is finally ranged over
+	if earlySeq != nil {
+		var ev *sim.Violation
+		pv := engc.Call(ad.name+".All", func() {
+			var ks []K
+			var vs []int
+			for k, v := range earlySeq {
+				ks = append(ks, k)
+				vs = append(vs, v)
+				if len(ks) > 4*domain {
+					break
+				}
+			}
+			ev = cmpEnum(ad, md, "All", len(c.Ops), ks, vs, md.keys(), true)
+		})
+		if pv != nil {
+			pv.Detail += " [sequence obtained from All() before the first operation, ranged at the end]"
+			return pv, true
+		}
+		if ev != nil {
+			ev.Detail += " [sequence obtained from All() before the first operation, ranged at the end]"
+			return ev, true
+		}
+		out.Probes["sequence_obtained_early_ranged_late"]++
 	}
 	if twin != nil {
 		out.Probes["twin_instance_used_alternately"]++
